@@ -62,10 +62,13 @@ def main(argv=None):
     kf = F.load_known_findings()
     kf_by_id = {k["id"]: k for k in kf.get("findings", []) if k.get("property") == pid}
 
-    violations, undecided, known_hits, spurious = [], [], {}, []
+    violations, undecided, known_hits, spurious, optional_to = [], [], {}, [], []
     for job, res in zip(jobs, results):
         if res["status"] == "undecided":
-            undecided.append((job, res))
+            if job.optional and "TIMEOUT" in res.get("reason", ""):
+                optional_to.append((job, res))
+            else:
+                undecided.append((job, res))
             continue
         for ob in res.get("failed", []):
             kid = None
@@ -105,6 +108,8 @@ def main(argv=None):
             print(f"  failed obligation: {job.name}:{ob['id']} -- {ob['desc']}  cex={json.dumps(ob.get('cex', {}))}")
             exit_code = F.EXIT_VIOLATION
             vio_records.append(rec)
+    for job, res in optional_to:
+        print(f"NOTE property={pid} optional attempt {job.name} not decided within its time cap ({res['reason']}); not counted as proved")
     for job, res in undecided:
         print(f"UNDECIDED property={pid} job={job.name}: {res['reason'][:600]}")
     if exit_code == F.EXIT_OK and (undecided or spurious):
@@ -127,7 +132,7 @@ def _evidence_fail(pid, tier, seed, t0, why):
 
 
 def _evidence(pid, tier, seed, t0, plan, jobs, results, known_hits, vio, undecided, spurious, kf_by_id):
-    proof_jobs = [(j, r) for j, r in zip(jobs, results) if j.level == "proof" and not j.known]
+    proof_jobs = [(j, r) for j, r in zip(jobs, results) if j.level == "proof" and not j.known and not (j.optional and r["status"] == "undecided")]
     kf_jobs = [(j, r) for j, r in zip(jobs, results) if j.known]
     bounded_jobs = [(j, r) for j, r in zip(jobs, results) if j.level == "bounded" and not j.known]
 
@@ -172,6 +177,7 @@ def _evidence(pid, tier, seed, t0, plan, jobs, results, known_hits, vio, undecid
                                 "failed": [o["id"] for o in r.get("failed", [])]} for j, r in kf_jobs],
         "known_findings_reported": [{"id": k, "what": kf_by_id[k]["what"]} for k in known_hits],
         "undecided_jobs": [{"job": j.name, "reason": r["reason"][:300]} for j, r in undecided],
+        "optional_attempts_not_decided": [j.name for j, r in zip(jobs, results) if j.optional and r["status"] == "undecided"],
         "spurious": [{"job": j.name, "obligation": o["id"], "file": p} for j, o, p in spurious],
         "samples": samples,
         "slices": plan.get("slices", []),
